@@ -60,6 +60,7 @@ def impl(py):
                     worst["depth"] = d
                     worst["name"] = co.co_name
                     worst["frames_per_level"] = (stack_depth(frame) - root_depth[co]) / float(d - 1)
+                    worst["root_frames"] = root_depth[co]
         elif event == "return":
             d = live.get(co, 0)
             if d == 0:
@@ -96,6 +97,7 @@ def impl(py):
     finally:
         sys.setprofile(None)
     out.update(worst)
+    out["limit"] = sys.getrecursionlimit()
     out["other_peak"] = other["peak"]
     out["other_name"] = other["name"]
     return out
@@ -162,6 +164,16 @@ def compare(case, io, mo):
     if io.get("excess") is not None and io["excess"] > 0:
         return ("recursion deeper than the block is large (theorems C11_depth_*): %s nested %d deep in a block of %d variables"
                 % tuple(io.get("at", ["?", io.get("depth"), io.get("block")])))
+    # the interpreter's frame accounting, the part of the recursion-limit clause that is not in the
+    # Coq model: with f frames per level and r frames below the outermost activation, a block of 200
+    # items (the claim's limit) plus its two walls needs r + f * 202 frames
+    if io.get("frames_per_level") and io.get("root_frames") is not None and io.get("limit"):
+        # the runner itself sits ~25 frames deeper than a plain script calling export(); allow for it
+        need = io["root_frames"] - 25 + io["frames_per_level"] * 202
+        if need > io["limit"]:
+            return ("%.1f interpreter frames per level of %s, %d frames below it: a conflict cluster of 200 items would need "
+                    "about %d frames, the recursion limit is %d" % (io["frames_per_level"], io.get("name"), io["root_frames"],
+                                                                   need, io["limit"]))
     # not vacuous: code of vpsc.py that is not a Block method must not recurse deeper than the Block
     # methods driving it (+1 for the closure called from the innermost level); otherwise a traversal
     # lives where this tie cannot relate it to a block size
